@@ -80,7 +80,8 @@ func genC04(c *Ctx) {
 		elemSrc, elemTok := []string{}, []string{}
 		for i, b := range tbl {
 			if b == "N" {
-				elemSrc = append(elemSrc, "nil")
+				// a nil element: the literal, or a nil made by Nil.new (same type, another object)
+				elemSrc = append(elemSrc, []string{"nil", "Nil.new"}[(i+len(tbl))%2])
 				elemTok = append(elemTok, "N")
 			} else {
 				if kind, ok := c04RaiseKinds[b]; ok {
